@@ -46,6 +46,10 @@ class Ana:
     def __init__(self, spec, tr, runs):
         self.spec, self.tr, self.runs = spec, tr, runs
         self.nums = GEN.chain_numbers(spec)
+        if self.nums['self_locking_near_threshold']:
+            # friction within rounding distance of cos(alpha) tan(beta): the flag itself is a rounding matter (the library's
+            # trigonometry on converted angles may differ from the harness's by an ulp) -- adopt the observed flag
+            self.nums['self_locking'] = bool(tr.self_locking)
         self.N = finite_prefix(tr)
         self.overflowed = tr.n - self.N if tr.n > self.N else 0
         self.L = tr.els[-1]['vars']
